@@ -70,6 +70,8 @@ thread_local! {
   static PROBES: RefCell<BTreeMap<&'static str, u64>> = const { RefCell::new(BTreeMap::new()) };
   static SEQ: Cell<u64> = const { Cell::new(0) };
   static NO_PARK: Cell<u64> = const { Cell::new(0) };
+  static AUTO_TIME: Cell<bool> = const { Cell::new(true) };
+  static RUN_NONCE: Cell<u64> = const { Cell::new(0) };
   static NO_PARK_VIOLATIONS: Cell<u64> = const { Cell::new(0) };
 }
 
@@ -81,6 +83,8 @@ pub fn reset_run(rates: FaultRates, start_ns: u64) {
   SEQ.with(|s| s.set(0));
   NO_PARK.with(|s| s.set(0));
   NO_PARK_VIOLATIONS.with(|s| s.set(0));
+  AUTO_TIME.with(|s| s.set(true));
+  RUN_NONCE.with(|s| s.set(0));
   crate::time::reset(start_ns);
 }
 
@@ -159,4 +163,24 @@ pub(crate) fn note_no_park_violation() {
 
 pub fn no_park_violations() -> u64 {
   NO_PARK_VIOLATIONS.with(|s| s.get())
+}
+
+/// Whether waiting (janitor tick, sleep) lets virtual time pass by itself. Scenarios that place
+/// the clock by hand (expiry exactly at / around a deadline) switch this off.
+pub fn set_auto_time(on: bool) {
+  AUTO_TIME.with(|s| s.set(on));
+}
+
+pub fn auto_time() -> bool {
+  AUTO_TIME.with(|s| s.get())
+}
+
+/// A per-run counter for shims that must hand out *different but deterministic* values
+/// (e.g. hasher states): 0, 1, 2, ... in the order requested within the run.
+pub fn next_nonce() -> u64 {
+  RUN_NONCE.with(|s| {
+    let v = s.get();
+    s.set(v + 1);
+    v
+  })
 }
